@@ -1,10 +1,16 @@
-//! Bounded mpsc channel model: FIFO buffer of fixed capacity, sender count,
-//! one receiver waker slot, list of blocked-sender wakers.
-use std::cell::{Cell, RefCell};
+//! Bounded mpsc channel MODEL for single-task symbolic execution.
+//!
+//! * FIFO buffer of at most `RING` items stored inline, requested capacity kept
+//!   as a number;
+//! * sender count, receiver-closed flag;
+//! * wake-ups: the model assumes ONE task (every `Context` handed to it belongs
+//!   to the harness' executor), so "register the waker" is a `waiting` flag and
+//!   "wake" sets the global flag `crate::model::WOKEN` that the executor reads.
+//!   This is exactly an `AtomicWaker` holding the only waker that exists.
+use std::cell::{Cell, UnsafeCell};
 use std::future::Future;
 use std::pin::Pin;
-use std::rc::Rc;
-use std::task::{Context, Poll, Waker};
+use std::task::{Context, Poll};
 
 pub mod error {
     #[derive(Debug, PartialEq, Eq, Clone, Copy)]
@@ -22,58 +28,80 @@ pub mod error {
 }
 use error::*;
 
+/// Ring capacity of the model. The capacity requested by the caller is kept as
+/// a number (`cap`) and may exceed `RING`; only an actual occupancy above
+/// `RING` trips the model-bound assertion.
 pub const RING: usize = 4;
-/// Fixed ring buffer (no heap, no growth). `cap` <= RING is asserted.
-struct Ring<T> {
+
+/// Inline FIFO: items are kept at indices `0..len`, `pop_front` shifts down.
+struct Fifo<T> {
     slots: [Option<T>; RING],
-    head: usize,
-    len: usize,
+    len: u8,
 }
-impl<T> Ring<T> {
+impl<T> Fifo<T> {
     fn new() -> Self {
-        Ring { slots: [const { None }; RING], head: 0, len: 0 }
+        Fifo { slots: [const { None }; RING], len: 0 }
     }
     fn len(&self) -> usize {
-        self.len
+        self.len as usize
     }
     fn push_back(&mut self, v: T) {
-        let i = (self.head + self.len) % RING;
-        self.slots[i] = Some(v);
+        assert!((self.len as usize) < RING, "model bound exceeded: mpsc RING");
+        self.slots[self.len as usize] = Some(v);
         self.len += 1;
     }
     fn pop_front(&mut self) -> Option<T> {
         if self.len == 0 {
             return None;
         }
-        let v = self.slots[self.head].take();
-        self.head = (self.head + 1) % RING;
+        let v = self.slots[0].take();
+        // RING = 4, spelled out so that no loop bound depends on the model.
+        self.slots[0] = self.slots[1].take();
+        self.slots[1] = self.slots[2].take();
+        self.slots[2] = self.slots[3].take();
         self.len -= 1;
         v
     }
     fn clear(&mut self) {
-        let mut i = 0;
-        while i < RING {
-            self.slots[i] = None;
-            i += 1;
-        }
+        self.slots[0] = None;
+        self.slots[1] = None;
+        self.slots[2] = None;
+        self.slots[3] = None;
         self.len = 0;
     }
 }
+
 struct Chan<T> {
-    buf: RefCell<Ring<T>>,
+    buf: UnsafeCell<Fifo<T>>,
     cap: usize,
     tx_count: Cell<usize>,
     rx_closed: Cell<bool>,
-    rx_waker: RefCell<Option<Waker>>,
-    /// Single task: every blocked sender has the same waker; one slot suffices.
-    tx_waker: RefCell<Option<Waker>>,
+    /// The receiver returned `Pending` and has not been woken since.
+    rx_waiting: Cell<bool>,
+    /// Some sender returned `Pending` and has not been woken since.
+    tx_waiting: Cell<bool>,
 }
 
+/// Handles point at a channel that is allocated once and never freed (the
+/// model does no reference counting: a verification run is short-lived and
+/// `tx_count` / `rx_closed` carry all the semantics the contract needs).
 pub struct Sender<T> {
-    chan: Rc<Chan<T>>,
+    chan: *const Chan<T>,
 }
 pub struct Receiver<T> {
-    chan: Rc<Chan<T>>,
+    chan: *const Chan<T>,
+}
+impl<T> Sender<T> {
+    fn c(&self) -> &Chan<T> {
+        // SAFETY: the channel is leaked, hence valid for the whole run.
+        unsafe { &*self.chan }
+    }
+}
+impl<T> Receiver<T> {
+    fn c(&self) -> &Chan<T> {
+        // SAFETY: the channel is leaked, hence valid for the whole run.
+        unsafe { &*self.chan }
+    }
 }
 // Single-task model; never actually shared between threads.
 unsafe impl<T: Send> Send for Sender<T> {}
@@ -94,48 +122,47 @@ impl<T> std::fmt::Debug for Receiver<T> {
 
 pub fn channel<T>(buffer: usize) -> (Sender<T>, Receiver<T>) {
     assert!(buffer > 0, "mpsc bounded channel requires buffer > 0");
-    assert!(buffer <= RING, "model bound RING exceeded");
-    let chan = Rc::new(Chan {
-        buf: RefCell::new(Ring::new()),
+    let chan: *const Chan<T> = Box::into_raw(Box::new(Chan {
+        buf: UnsafeCell::new(Fifo::new()),
         cap: buffer,
         tx_count: Cell::new(1),
         rx_closed: Cell::new(false),
-        rx_waker: RefCell::new(None),
-        tx_waker: RefCell::new(None),
-    });
-    (
-        Sender {
-            chan: chan.clone(),
-        },
-        Receiver { chan },
-    )
+        rx_waiting: Cell::new(false),
+        tx_waiting: Cell::new(false),
+    }));
+    (Sender { chan }, Receiver { chan })
 }
 
 impl<T> Chan<T> {
+    #[allow(clippy::mut_from_ref)]
+    fn buf(&self) -> &mut Fifo<T> {
+        // SAFETY: single task, no re-entrancy, references never escape a call.
+        unsafe { &mut *self.buf.get() }
+    }
     fn wake_rx(&self) {
-        let w = self.rx_waker.borrow_mut().take();
-        if let Some(w) = w {
-            w.wake();
+        if self.rx_waiting.get() {
+            self.rx_waiting.set(false);
+            crate::model::wake();
         }
     }
     fn wake_txs(&self) {
-        let w = self.tx_waker.borrow_mut().take();
-        if let Some(w) = w {
-            w.wake();
+        if self.tx_waiting.get() {
+            self.tx_waiting.set(false);
+            crate::model::wake();
         }
     }
 }
 
 impl<T> Sender<T> {
     pub fn try_send(&self, value: T) -> Result<(), TrySendError<T>> {
-        let c = &*self.chan;
+        let c = self.c();
         if c.rx_closed.get() {
             return Err(TrySendError::Closed(value));
         }
-        if c.buf.borrow().len() >= c.cap {
+        if c.buf().len() >= c.cap {
             return Err(TrySendError::Full(value));
         }
-        c.buf.borrow_mut().push_back(value);
+        c.buf().push_back(value);
         c.wake_rx();
         Ok(())
     }
@@ -146,13 +173,13 @@ impl<T> Sender<T> {
         }
     }
     pub fn is_closed(&self) -> bool {
-        self.chan.rx_closed.get()
+        self.c().rx_closed.get()
     }
     pub fn capacity(&self) -> usize {
-        self.chan.cap - self.chan.buf.borrow().len()
+        self.c().cap - self.c().buf().len()
     }
     pub fn max_capacity(&self) -> usize {
-        self.chan.cap
+        self.c().cap
     }
 }
 pub struct SendFut<'a, T> {
@@ -162,45 +189,43 @@ pub struct SendFut<'a, T> {
 impl<'a, T> Unpin for SendFut<'a, T> {}
 impl<'a, T> Future for SendFut<'a, T> {
     type Output = Result<(), SendError<T>>;
-    fn poll(mut self: Pin<&mut Self>, cx: &mut Context<'_>) -> Poll<Self::Output> {
+    fn poll(mut self: Pin<&mut Self>, _cx: &mut Context<'_>) -> Poll<Self::Output> {
         let this = &mut *self;
-        let c = &*this.tx.chan;
+        let c = this.tx.c();
         if c.rx_closed.get() {
             let v = this.value.take().expect("polled after completion");
             return Poll::Ready(Err(SendError(v)));
         }
-        if c.buf.borrow().len() >= c.cap {
-            *c.tx_waker.borrow_mut() = Some(cx.waker().clone());
+        if c.buf().len() >= c.cap {
+            c.tx_waiting.set(true);
             return Poll::Pending;
         }
         let v = this.value.take().expect("polled after completion");
-        c.buf.borrow_mut().push_back(v);
+        c.buf().push_back(v);
         c.wake_rx();
         Poll::Ready(Ok(()))
     }
 }
 impl<T> Clone for Sender<T> {
     fn clone(&self) -> Self {
-        self.chan.tx_count.set(self.chan.tx_count.get() + 1);
-        Sender {
-            chan: self.chan.clone(),
-        }
+        self.c().tx_count.set(self.c().tx_count.get() + 1);
+        Sender { chan: self.chan }
     }
 }
 impl<T> Drop for Sender<T> {
     fn drop(&mut self) {
-        let n = self.chan.tx_count.get() - 1;
-        self.chan.tx_count.set(n);
+        let n = self.c().tx_count.get() - 1;
+        self.c().tx_count.set(n);
         if n == 0 {
-            self.chan.wake_rx();
+            self.c().wake_rx();
         }
     }
 }
 
 impl<T> Receiver<T> {
-    pub fn poll_recv(&mut self, cx: &mut Context<'_>) -> Poll<Option<T>> {
-        let c = &*self.chan;
-        let v = c.buf.borrow_mut().pop_front();
+    pub fn poll_recv(&mut self, _cx: &mut Context<'_>) -> Poll<Option<T>> {
+        let c = self.c();
+        let v = c.buf().pop_front();
         match v {
             Some(v) => {
                 c.wake_txs();
@@ -210,15 +235,15 @@ impl<T> Receiver<T> {
                 if c.tx_count.get() == 0 || c.rx_closed.get() {
                     Poll::Ready(None)
                 } else {
-                    *c.rx_waker.borrow_mut() = Some(cx.waker().clone());
+                    c.rx_waiting.set(true);
                     Poll::Pending
                 }
             }
         }
     }
     pub fn try_recv(&mut self) -> Result<T, TryRecvError> {
-        let c = &*self.chan;
-        let v = c.buf.borrow_mut().pop_front();
+        let c = self.c();
+        let v = c.buf().pop_front();
         match v {
             Some(v) => {
                 c.wake_txs();
@@ -237,8 +262,8 @@ impl<T> Receiver<T> {
         RecvFut { rx: self }
     }
     pub fn close(&mut self) {
-        self.chan.rx_closed.set(true);
-        self.chan.wake_txs();
+        self.c().rx_closed.set(true);
+        self.c().wake_txs();
     }
 }
 pub struct RecvFut<'a, T> {
@@ -252,8 +277,8 @@ impl<'a, T> Future for RecvFut<'a, T> {
 }
 impl<T> Drop for Receiver<T> {
     fn drop(&mut self) {
-        self.chan.rx_closed.set(true);
-        self.chan.buf.borrow_mut().clear();
-        self.chan.wake_txs();
+        self.c().rx_closed.set(true);
+        self.c().buf().clear();
+        self.c().wake_txs();
     }
 }
